@@ -2,7 +2,7 @@
 import json
 import numpy as np
 
-from harness.proj import to_rat, rat_close, relayout
+from harness.proj import to_rat, rat_close, relayout, try_layout
 from harness.core import Machinery
 
 LEVEL = "model_checking"
@@ -26,12 +26,13 @@ def _check_case(ctx, metrics, c, variant):
         o2 = np.concatenate([o2[:1], [np.nan], o2[1:]])
         e2 = np.vstack([e2[:1], e2[:1] * 0 + 77.0, e2[1:]])
     e2 = np.ascontiguousarray(e2)
-    if variant.get("layout"):
-        o2, e2 = relayout(o2, variant["layout"]), relayout(e2, variant["layout"] // 5)
     o0, e0 = o2.copy(), e2.copy()
     case = {"obs": c["obs"], "ens": c["ens"], "variant": variant}
     try:
-        dec, tab = metrics.crps(o2, e2)
+        if variant.get("layout"):
+            (dec, tab), _used = try_layout(metrics.crps, (o2, e2), (relayout(o2, variant["layout"]), relayout(e2, variant["layout"] // 7)))
+        else:
+            dec, tab = metrics.crps(o2, e2)
     except Exception as ex:
         ctx.violation("crps:exception", repr(ex), case)
         return
@@ -98,7 +99,7 @@ def spec_to_code(ctx, metrics, cfg):
         _check_case(ctx, metrics, c, base)
         var = {"shift": [0, -5, 100][h % 3], "scale": [1.0, 0.5, 8.0][(h // 3) % 3],
                "revmem": bool((h // 9) % 2), "revfc": bool((h // 18) % 2), "nanrow": bool((h // 36) % 3 == 0),
-               "layout": (h // 108) % 25}
+               "layout": (h // 108) % 49}
         _check_case(ctx, metrics, c, var)
         ties = any(len(set(e)) < len(e) for e in c["ens"]) or any(o in e for o, e in zip(c["obs"], c["ens"]))
         ctx.count({"o": c["obs"], "e": c["ens"]}, ties)
